@@ -44,3 +44,73 @@ Lemma init_size_nint_word s w i wmax vals :
 Proof. reflexivity. Qed.
 Lemma init_size_both s w f ni wmax vals : init_size (Some s) (Some w) (Some f) ni wmax vals = Ok (s, w, f).
 Proof. destruct ni; reflexivity. Qed.
+
+(* ---------- the fraction-bit search: binary expansion of the fractional part ---------- *)
+(* r = R / 2^k with 0 <= R < 2^(k-n) after n steps; the loop stops at the first n where R is
+   zero, i.e. at the least n such that the fractional part is a multiple of 2^-n *)
+Lemma mod_mod_pow2 R a b : 0 <= b <= a -> (R mod 2^a) mod 2^b = R mod 2^b.
+Proof.
+  intros H. symmetry. apply Znumtheory.Zmod_div_mod; [apply pow2_pos; lia | apply pow2_pos; lia|].
+  exists (2^(a - b)). rewrite <- pow2_split by lia. f_equal. lia.
+Qed.
+
+Lemma frac_loop_spec fuel max_n k : forall R n e_pos, 0 <= n <= k -> k <= max_n -> 0 <= R < 2^(k - n) ->
+  (e_pos = false -> R = 0) -> (Z.to_nat (k - n) < fuel)%nat ->
+  exists res, frac_loop fuel max_n {| dm := R; de := - k |} n e_pos = Some res /\
+    n <= res <= k /\ R mod 2^(k - res) = 0 /\ (forall j, n <= j < res -> R mod 2^(k - j) <> 0).
+Proof.
+  induction fuel as [|fuel IH]; intros R n e_pos Hn Hmax HR He Hfuel; [lia|].
+  cbn [frac_loop]. unfold dy_is_zero. cbn [dm].
+  destruct (R =? 0) eqn:ER.
+  - (* the remainder is zero: stop *)
+    rewrite andb_false_r. exists n. split; [reflexivity|]. split; [lia|]. split; [|intros j Hj; lia].
+    replace R with 0 by lia. apply Z.mod_0_l. assert (0 < 2^(k - n)) by (apply pow2_pos; lia). lia.
+  - assert (Hep: e_pos = true) by (destruct e_pos; [reflexivity|specialize (He eq_refl); lia]).
+    assert (Hnk: n < k). { destruct (Z.eq_dec n k) as [->|]; [|lia]. rewrite Z.sub_diag in HR. change (2^0) with 1 in HR. lia. }
+    rewrite Hep. replace (n <=? max_n) with true by lia. cbn [andb negb].
+    (* one step of the expansion *)
+    set (h := 2^(k - (n + 1))). assert (Ph: 0 < h) by (apply pow2_pos; lia).
+    assert (E2: 2^(k - n) = 2 * h) by (unfold h; replace (k - n) with (k - (n + 1) + 1) by lia; rewrite Z.pow_add_r by lia; change (2^1) with 2; lia).
+    assert (Hsub: dy_sub {| dm := R; de := - k |} {| dm := 1; de := - (n + 1) |} = {| dm := R - h; de := - k |}).
+    { unfold dy_sub, dy_align. cbn [dm de]. rewrite Z.min_l by lia. rewrite Z.sub_diag, Z.pow_0_r, Z.mul_1_r, Z.mul_1_l.
+      replace (- (n + 1) - - k) with (k - (n + 1)) by lia. reflexivity. }
+    rewrite Hsub. cbn [dm].
+    set (R' := if 0 <=? R - h then R - h else R).
+    assert (HR2: 0 <= R < 2 * h) by lia.
+    assert (HR': R' = R mod h).
+    { unfold R'. destruct (0 <=? R - h) eqn:E; [apply (Z.mod_unique_pos R h 1 (R - h)); lia | symmetry; apply Z.mod_small; lia]. }
+    assert (Hr': (if 0 <=? R - h then {| dm := R - h; de := - k |} else {| dm := R; de := - k |}) = {| dm := R'; de := - k |})
+      by (unfold R'; destruct (0 <=? R - h); reflexivity).
+    rewrite Hr'.
+    destruct (IH R' (n + 1) (negb (R - h =? 0))) as (res & Hres & Hb & Hz & Hmin).
+    + lia.
+    + exact Hmax.
+    + rewrite HR'. fold h. apply Z.mod_pos_bound. lia.
+    + intros Hneg. unfold R'. destruct (R - h =? 0) eqn:E0; [|discriminate]. replace (0 <=? R - h) with true by lia. lia.
+    + lia.
+    + exists res. split; [exact Hres|]. split; [lia|].
+      assert (Hcongr: forall j, n + 1 <= j <= k -> R' mod 2^(k - j) = R mod 2^(k - j)).
+      { intros j Hj. rewrite HR'. unfold h. apply mod_mod_pow2. lia. }
+      split; [rewrite <- Hcongr by lia; exact Hz|].
+      intros j Hj. destruct (Z.eq_dec j n) as [->|Hne].
+      * rewrite Z.mod_small by lia. lia.
+      * rewrite <- Hcongr by lia. apply Hmin. lia.
+Qed.
+
+(* for a value m * 2^e with e < 0: the inferred fraction length is the LEAST n for which the value
+   is a multiple of 2^-n (so storing with n fraction bits is exact, and with fewer it is not) *)
+Theorem frac_bits_min max_n v : de v < 0 -> - de v <= max_n -> - de v <= 198 ->
+  exists n, frac_bits max_n v = Some n /\ 0 <= n <= - de v /\
+    dm v mod 2^(- de v - n) = 0 /\ (forall j, 0 <= j < n -> dm v mod 2^(- de v - j) <> 0).
+Proof.
+  intros He Hmax Hfuel. set (k := - de v). unfold frac_bits, dy_frac. replace (0 <=? de v) with false by lia.
+  replace (de v) with (- k) by (unfold k; lia). replace (- - k) with k by lia.
+  assert (Pk: 0 < 2^k) by (apply pow2_pos; unfold k; lia).
+  assert (HR: 0 <= dm v mod 2^k < 2^(k - 0)) by (rewrite Z.sub_0_r; apply Z.mod_pos_bound; exact Pk).
+  assert (Hk: 0 <= 0 <= k) by (unfold k; lia). assert (Hkm: k <= max_n) by (unfold k; lia).
+  assert (Hfu: (Z.to_nat (k - 0) < 200)%nat) by (unfold k; lia).
+  destruct (frac_loop_spec 200 max_n k (dm v mod 2^k) 0 true Hk Hkm HR ltac:(discriminate) Hfu) as (n & Hn & Hb & Hz & Hmin).
+    exists n. split; [exact Hn|]. split; [lia|]. split.
+    + rewrite mod_mod_pow2 in Hz by lia. exact Hz.
+    + intros j Hj. specialize (Hmin j ltac:(lia)). rewrite mod_mod_pow2 in Hmin by lia. exact Hmin.
+Qed.
